@@ -615,6 +615,9 @@ func muxSections(c *mon.Ctx, idx int64, r *rand.Rand) {
 	}
 	if idx%16 == 3 {
 		ops = wrapPMTScenario(r)
+		if (idx/16)%2 == 1 {
+			ops = wrapDescriptorScenario(r)
+		}
 		c.Count("histories_with_a_pmt_of_65536_bytes")
 	}
 	hr := runHistory(ops, 10)
